@@ -172,6 +172,23 @@ def main(tier):
             need = sorted({g["target"], oi, 1})
             chosen.append({"g": g, "needed": need, "frontier": [], "mustRun": [True] * ti})
             scns.append(scn)
+        # ONE COND file serving two packages through a symbolic link (p/q/COND -> ../COND): ":n" means //p/q:n there, and only the
+        # tasks of the closure of the target may run
+        for v in range(4):
+            g = {"n": 4, "target": 4 if v % 2 else 2, "deps": [[], [1], [], [3]], "kind": ["cmd", "exp" if v > 1 else "cmd", "cmd", "exp" if v > 1 else "cmd"],
+                 "par": [False] * 4, "cachedTs": [0] * 4, "stale": [False] * 4, "again": False, "atLeast": False, "now": 1000, "lastTs0": 0}
+            scn = RC.scenario_from_graph(g, placement=0, jobs=1, sched={"mode": "script", "choices": []})
+            kind2 = "run_experiment" if v > 1 else "run_command"
+            scn["project"]["tasks"] = [
+                {"pkg": "p", "name": "n", "kind": "run_command", "deps": [], "run": "true"},
+                {"pkg": "p", "name": "top", "kind": kind2, "deps": [":n"], "run": "true"},
+                {"pkg": "p/q", "name": "n", "kind": "run_command", "deps": [], "run": "true"},
+                {"pkg": "p/q", "name": "top", "kind": kind2, "deps": [":n"], "run": "true"}]
+            scn["argv"] = ["run", "//p/q:top" if v % 2 else "//p:top"] + scn["argv"][2:]
+            scn["cond_links"] = {"p/q": "p"}
+            scn["dup_spelling"] = True
+            chosen.append({"g": g, "needed": [3, 4] if v % 2 else [1, 2], "frontier": [], "mustRun": [True] * 4})
+            scns.append(scn)
         results = RC.run_batch(scns)
     verdicts, traces, errs, tr = RC.judge_batch(scns, results)
     for i, r in errs:
